@@ -624,11 +624,17 @@ func (e *endpoint) writeWU(id uint32, inc uint32) {
 
 // cutBlock splits an encoded header block into 1+nCont fragments.
 func cutBlock(block []byte, nCont int, seed int64, emptyOK bool, firstMax, contMax int) [][]byte {
+	if len(block) == 0 {
+		return [][]byte{block}
+	}
 	rng := rand.New(rand.NewSource(seed))
 	cuts := make([]int, 0, nCont)
 	for i := 0; i < nCont; i++ {
 		if emptyOK || len(block) < 2 {
-			cuts = append(cuts, rng.Intn(len(block)+1))
+			// later fragments may be empty; the first one is kept non-empty because x/net's
+			// http2.Framer (which the relay reads with) rejects a HEADERS frame whose fragment is
+			// empty; that case is exercised by the separate framer-limit probes
+			cuts = append(cuts, 1+rng.Intn(len(block)))
 		} else {
 			cuts = append(cuts, 1+rng.Intn(len(block)-1))
 		}
